@@ -212,7 +212,13 @@ func VerifH_bgzf_seek_history() {
 		if step == attachAt {
 			rc.SetCache(verifNewBgzfCache(cachekind, 1+vrt.Choice("cachecap", 2)))
 		}
-		op := vrt.Choice("op", 4)
+		var op int
+		if vrt.Param("OPS", 4) == 2 {
+			// directed variants: longer histories of Read and Seek only
+			op = []int{0, 2}[vrt.Choice("op", 2)]
+		} else {
+			op = vrt.Choice("op", 4)
+		}
 		a, b := 0, 0
 		switch op {
 		case 0:
